@@ -179,6 +179,18 @@ def pFile (ts : List String) : Option (String × FileD) := do
 /-! ## encoder: the summary of a file as a reader of the text sees it (`summarize2`) -/
 
 mutual
+/-- the fields of a message literal in the order of their names (occurrences of one name stay in
+order): the canonical form of the wire, the order carries no meaning -/
+def canonTree : Opt → Opt
+  | .scalar k v => .scalar k v
+  | .msg k ks => .msg k (stableSort (fun a b => Order.nameLess (strToBytes a.key) (strToBytes b.key)) (canonTrees ks))
+  | .arr k ks => .arr k (canonTrees ks)
+def canonTrees : List Opt → List Opt
+  | [] => []
+  | o :: r => canonTree o :: canonTrees r
+end
+
+mutual
 def encTree : Opt → List String
   | .scalar k v => ["S", encS k, encS v]
   | .msg k ks => ["M", encS k, toString ks.length] ++ encTrees ks
@@ -196,7 +208,7 @@ def encLoc2 (l : Loc) : List String :=
 
 def encOpt2 (o : SOpt) : List String :=
   ["O", encS o.name, encFlag o.hasLoc, encFlag o.singleLine, encFlag o.inlineParent, toString o.startLine,
-    toString o.stmts.length] ++ (o.stmts.map fun v => encTree (eraseKeys v)).flatten
+    toString o.stmts.length] ++ (o.stmts.map fun v => encTree (canonTree (eraseKeys v))).flatten
 
 /-- options in the order of their printed names (the canonical order of the wire) -/
 def encOpts2 (os : List SOpt) : List String :=
